@@ -109,7 +109,9 @@ struct vf_el { int id; struct cstl_hash_node hn; int poisoned; };
 static struct vf_el vf_pool[VF_POOL];
 #define NODE(i)   (&vf_pool[i].hn)
 #define ELEM(i)   ((void *)&vf_pool[i])
+#ifndef VF_MAXB
 #define VF_MAXB   4                                        /* largest bucket count used */
+#endif
 #define VF_GARBAGE ((struct cstl_hash_node *)1)            /* what a released element's link holds */
 
 struct vf_model { int live[VF_POOL]; size_t key[VF_POOL]; };
@@ -193,7 +195,7 @@ static void vf_k_pre(const struct cstl_hash * h)
     vf_pre.pending = H_PENDING(h);
     vf_pre.clean = h->bucket.rh.clean; vf_pre.count = h->bucket.count; vf_pre.rh_count = h->bucket.rh.count;
     vf_pre.hash = h->bucket.hash; vf_pre.rh_hash = h->bucket.rh.hash;
-    VF_ASSERT(h->bucket.count >= 1 && h->bucket.count <= VF_MAXB, "keyed operation: the table has been resized (1..4 buckets in these scopes)");
+    VF_ASSERT(h->bucket.count >= 1 && h->bucket.count <= VF_MAXB, "keyed operation: the table has been resized (1..VF_MAXB buckets in these scopes)");
     if (!vf_pre.pending) return;
     for (b = 0; b < VF_MAXB; b++) {
         vf_pre.dirty[b] = b < vf_pre.count && h->bucket.at[b].cst != h->bucket.cst;
@@ -619,7 +621,7 @@ void h_b_rehash(void)
 
 /* ------------------------------------------------------------------ B3: foreach / foreach_const / clear (C04) */
 #if defined(VF_B) && VF_B == 3
-struct vf_state { size_t m1; int f1; size_t m2; int f2; int s; int ops[2]; };
+struct vf_state { size_t m1; int f1; size_t m2; int f2; int s; int ops[2]; size_t m3; int f3; };
 static const struct vf_state vf_states[] = {
     { 3, 0, 3, 0, 0, { 0, 0 } },      /* 0 no rehash pending                                                */
     { 2, 0, 4, 0, 0, { 0, 0 } },      /* 1 grow pending, nothing relocated yet                              */
@@ -631,6 +633,9 @@ static const struct vf_state vf_states[] = {
     { 4, 1, 4, 0, 1, { 0, 0 } },      /* 7 same bucket count, other hash function                           */
     { 4, 0, 3, 0, 2, { 1, 5 } },      /* 8 shrink pending after an insert and an erase, five-element history */
     { 3, 0, 4, 0, 1, { 1, 0 } },      /* 9 grow pending after an insert: five live elements                 */
+    { 3, 0, 4, 0, 1, { 0, 0 }, 6, 0 },  /* 10 a SECOND grow requested while the first is pending and partly relocated (seeded change C04-4) */
+    { 3, 0, 4, 0, 1, { 1, 0 }, 5, 1 },  /* 11 the same after an insert, other hash function for the second request */
+    { 3, 0, 4, 0, 1, { 0, 0 }, 2, 0 },  /* 12 a shrink requested while a grow is pending                       */
 };
 #define VF_NSTATES ((int)(sizeof(vf_states) / sizeof(vf_states[0])))
 #ifndef VF_ST_LO
@@ -726,6 +731,11 @@ void h_b_enum(void)
             int n, grow_relocated, shrinking;
             vf_saw_new_bucket_node = 0;
             vf_build(&h, &m, st->m1, st->f1, st->m2, st->f2, st->ops, st->s);
+            if (st->m3 != 0) {
+                VF_ASSERT(H_PENDING(&h) && vf_saw_new_bucket_node, "the second resize meets a pending grow with elements already in the new buckets");
+                m_resize(&h, st->m3, st->f3);
+                vf_check_struct(&h, &m);
+            }
             n = vf_nlive(&m);
             grow_relocated = vf_saw_new_bucket_node && H_PENDING(&h);
             shrinking = H_PENDING(&h) && h.bucket.rh.count < h.bucket.count;
